@@ -1980,7 +1980,7 @@ where
                 N
             };
 
-            let (right, left) = self.slices_uninit_mut();
+            let (right, _) = self.slices_uninit_mut();
 
             let write_len = core::cmp::min(right.len(), other.len());
             #[cfg(feature = "unstable")]
@@ -1988,7 +1988,12 @@ where
             #[cfg(not(feature = "unstable"))]
             write_uninit_slice_cloned(&mut right[..write_len], &other[..write_len]);
 
+            // Account for the elements cloned so far right away, so that they are not leaked if
+            // cloning the remaining elements panics
+            self.size += write_len;
+
             let other = &other[write_len..];
+            let (left, _) = self.slices_uninit_mut();
             debug_assert!(left.len() >= other.len());
             let write_len = other.len();
             #[cfg(feature = "unstable")]
